@@ -148,3 +148,27 @@ def mgr_appender(lst, d, val, lock, n, who):
         d[(who, k)] = k
         with lock:
             val.value = val.value + 1
+
+
+def slow(x, d=0.05):
+    time.sleep(d)
+    return ('ok', x)
+
+
+def swallow_then_return(x, d=1.0):
+    """a task with its own catch-all handler: a termination signal raised inside it is
+    swallowed once; the task then returns promptly"""
+    try:
+        time.sleep(d)
+    except BaseException:
+        pass
+    return ('ok', x)
+
+
+def on_exit_marker(pid, code):
+    try:
+        fd = os.open(os.environ.get('VERIF_EXIT_LOG', '/dev/null'), os.O_WRONLY | os.O_APPEND | os.O_CREAT)
+        os.write(fd, b'%d %d\n' % (pid, code if isinstance(code, int) else -1))
+        os.close(fd)
+    except Exception:
+        pass
